@@ -100,10 +100,23 @@ class C14(Prop):
         g = get_gen(ctx)
         for n in g.numbers:
             ops.append("ENCODE %s" % g.gen_msg(n, "valid", n=1))
+        # the reverse direction on a builder that is reused (every fourth type after three others, and after a refused message)
+        ms = [g.gen_msg(n, "valid", n=1) for n in g.numbers]
+        for k in range(0, len(ms), 4):
+            ops.append("BUILDSEQ " + " ".join(["VEmpty"] + ms[k:k + 4]))
         return ops
 
     def probe(self, op, res, ctx):
         toks, tag = tagged(op)
+        if toks[0] == "BUILDSEQ":
+            for m, r in zip(toks[1:], res.split(" ; ")):
+                if m.startswith("VMsg") and not m.startswith("VMsgNot") and r.startswith("OK "):
+                    n = int(m[4:m.index("(")])
+                    f = unhex(r[3:])
+                    got = (f[3] << 4) | (f[4] >> 4)
+                    if got != n:
+                        return "on a reused builder, variant Msg%d is encoded under number %d" % (n, got)
+            return None
         if toks[0] == "DECODE":
             d = unhex(toks[1])
             L = ((d[1] & 3) << 8) | d[2]
@@ -1318,6 +1331,10 @@ class C18(Prop):
                     if res[i].split(" ")[0] not in ("L", "G", "E"):
                         out.append((i, "%s: comparing descriptors (%s,%s) and (%s,%s) gave %s" % (t[1], t[2], t[3], t[4], t[5], res[i][:30])))
                         continue
+                    rr = res[i].split(" ")
+                    if len(rr) >= 2 and rr[1] != "-" and rr[1] != rr[0]:
+                        out.append((i, "%s: descriptors (%s,%s) and (%s,%s): cmp says %s, partial_cmp / the operators say %s" % (t[1], t[2], t[3], t[4], t[5], rr[0], rr[1])))
+                        continue
                     cmpd[(t[1], (int(t[2]), int(t[3])), (int(t[4]), int(t[5])))] = (res[i], i)
             # bijection and range
             by_g = {}
@@ -2147,7 +2164,7 @@ class C19(Prop):
             users = [f for f, deps in t["uses"].items() if sm in deps]
             if users:
                 must.append(rng.choice(sorted(users)))
-        must += [h["feature"] for h in t["hand_mods"]][:2] if ctx.tier == "quick" else [h["feature"] for h in t["hand_mods"]]
+        must += [h["feature"] for h in t["hand_mods"]]       # every feature with a hand-written field codec, on both tiers
         # suspects first: message! rows, include_msg! rows or cfg lists that are not of the regular shape
         suspects = set()
         for row in t["messages"]:
